@@ -55,7 +55,7 @@ def site_fragment(text, start_rx, callee):
             ex = expr.strip()
             if ex.startswith("{") and ex.endswith("}"):
                 ex = ex[1:-1].strip()
-            ex2 = re.sub(r"\b%s\(" % callee, "gen(", ex)
+            ex2 = re.sub(r"(?<!\w)%s\(" % callee, "gen(", ex)
             if "gen(" not in ex2:
                 raise AnchorLost("arm `%s` does not call %s" % (pat, callee))
             kept.append("    %s => { %s }" % (pat, ex2.rstrip(",")))
